@@ -3,6 +3,7 @@ pipeline.  Everything here renders *from* abstract descriptions, so the abstract
 inputs is known by construction (DESIGN 3.4).  Models are written as JSON (a YAML subset)."""
 import json
 import os
+import zlib
 
 from harness import env
 
@@ -60,7 +61,9 @@ def write_arch_model(path, isa, ports, forms, load_throughput=(), store_throughp
         "osaca_version": "0.5.0",
         "micro_architecture": "synthetic",
         "arch_code": "syn",
-        "isa": isa,
+        # shipped models spell the ISA both ways (a64fx: AArch64, a72: aarch64); the code is
+        # expected to compare it case-insensitively, so synthetic models use either spelling
+        "isa": ({"aarch64": ["AArch64", "aarch64"], "x86": ["x86", "x86"]}[isa][zlib.crc32(os.path.basename(path).encode()) % 2]),
         "ROB_size": 100,
         "retired_uOps_per_cycle": 4,
         "scheduler_size": 60,
